@@ -95,3 +95,26 @@ PROPS["C14"] = {
     "assumptions": TB + ["the 'client accepts' boundary is the local handshake (get_request_addr) and, for UDP, Socks5UdpCodec", "refusing a representable but exotic name (non-LDH) is allowed; only LDH names up to 200 bytes are required to be accepted through HTTP (the handshake peeks at most 1024 bytes)"],
     "plan": [{"name": "addresses", "check": "c14"}],
 }
+
+E2E_TB = TB + ["loopback only; the nodes are the crates' own client::main()/server::main() inside osv-node (panic recorder, task-count reporter)", "progress bounds are generous (25-60 s per flow, typical latencies are milliseconds and are recorded); schedules are whatever 2/4/16 worker threads and up to 64 concurrent flows produce"]
+
+PROPS["C01"] = {
+    "level": "exploration",
+    "rule": "configuration matrix protocol x cipher (10) x client-server transport (5): quick = every protocol with two transports (rotating with the seed), thorough = all 50; per configuration 12/40 scripted flows over the four README local handshakes (SOCKS5 IPv4, SOCKS5 domain, HTTP CONNECT, plain HTTP) with seeded sizes 0..1 MiB per direction, write sizes 1..64 KiB, pauses, request/response and simultaneous streaming and every closing pattern, first one at a time then 8 at a time, plus bursts of 24/64 concurrent flows and flows in which the application sends nothing and the target speaks first; oracles: positional streams at application and target (order, loss, duplication, corruption, cross-flow bytes), listener identity for the dialled address, completeness for the direction the closing pattern guarantees, end-of-stream, byte-identical plain-HTTP head, node panics and liveness; evaluations = flows; non-trivial = at least one payload byte verified or a symptom; distinct = distinct (configuration, flow)",
+    "assumptions": E2E_TB + ["the closing side's own bytes must arrive completely; the opposite direction only needs the prefix property after that moment (C15 semantics)", "README 'only IPv4': IPv6 targets are not part of the verdict"],
+    "plan": [{"name": "relay", "check": "c01", "bin": "osv-e2e", "timeout": {"quick": 900, "thorough": 3600}}],
+}
+
+PROPS["C02"] = {
+    "level": "exploration",
+    "rule": "UDP-capable configurations of the README table (Shadowsocks UDP x 7 ciphers x {0,1,3 users}; VMess x {tcp,tls,ws,wss,quic} x 2 securities; Trojan x {tls,wss,quic}; quick = a rotating third): K in {1,4,6/16} application sockets x M in {1,3} echo targets (IPv4 literal and domain), 24/60 datagrams each with sizes {21,64,512,1200,1472,2000,2048,4096,16000,32000}, 1 or 3 replies per datagram (the last from a second port), plus 0/1/2-byte datagrams one at a time; every datagram carries a unique id and is PRNG-filled, so the oracle checks at-most-once, whole, right target, reply to the right application socket, reply label = the target's address; a size class that is never answered while others are is a violation, sporadic loss is only counted; evaluations = configurations; distinct = configurations in which datagrams were verified",
+    "assumptions": E2E_TB + ["sending is paced (window of 8) so that loopback does not drop", "a label naming the target the way the application addressed it (domain) counts as the target's address"],
+    "plan": [{"name": "datagrams", "check": "c02", "bin": "osv-e2e", "timeout": {"quick": 900, "thorough": 3600}}],
+}
+
+PROPS["C15"] = {
+    "level": "exploration",
+    "rule": "one cipher per protocol over the transports (quick: a rotating third of 4x5; thorough: all, plus every cipher over tcp): batches of 12/24 (thorough 16/32/64) concurrent flows ending in every way (target closes after answering, application closes after everything / right after its request / mid-transfer / at once, target closes mid-transfer / at once, application or target resets), flows to a refused port and to an unresolvable name, and six long flows whose client-server link is cut (FIN or RST) by a forwarder mid-transfer; oracles: positional streams (delivered first), end-of-stream on the far side, release of both ends after a link cut, and resource accounting: /proc/<pid>/fd by kind and tokio alive-task counts of client and server sampled until stable, compared with the idle baseline after each batch - growth with the number of ended flows is a violation, a constant offset is reported as warm-up state; evaluations = flows; distinct = distinct (configuration, flow)",
+    "assumptions": E2E_TB + ["quiescence = descriptor and task counts unchanged for 2 s (watchdog 30 s; not settling is inconclusive)"],
+    "plan": [{"name": "teardown", "check": "c15", "bin": "osv-e2e", "timeout": {"quick": 900, "thorough": 3600}}],
+}
